@@ -432,6 +432,10 @@ type OpenFgaDslSyntaxErrorMetadata struct {
 }
 
 type OpenFgaDslSyntaxError struct {
+	// File is the name of the module file the error was found in. It is set by TransformModuleFilesToModel
+	// and empty for a text that was not given as a module file.
+	File string
+
 	line, column int
 	msg          string
 	metadata     *OpenFgaDslSyntaxErrorMetadata
